@@ -296,16 +296,19 @@ Inductive body := BRequest (r : request) | BClaim (c : claim) | BSettle (s : set
 Record txrec := { tx_lsn : N; tx_body : body; tx_before : N; tx_after : N }.
 (* [sto_base] identifies the WAL chain: the commit digest of the n-th committed transaction of
    this store is represented by sto_base + n, so commits of different stores never coincide *)
-Record store := { sto_base : N; sto_committed : list txrec; sto_tail : list txrec }.
+(* [sto_torn]: the segment ends in a partially written (byte-torn) record *)
+Record store := { sto_base : N; sto_committed : list txrec; sto_tail : list txrec; sto_torn : bool }.
 
-Inductive fault := NoFault | FailAppend | FailFlush | FailAfterSync.
+(* FailTorn: the frame append fails after part of the record reached the segment file *)
+Inductive fault := NoFault | FailAppend | FailFlush | FailAfterSync | FailTorn.
 
 Record index := { ix_entries : list (N * entry); ix_nodes : list (path * N) }.
 Record coordinator := { co_index : index; co_next_lsn : N; co_ready : bool }.
 Record sys := { sy_store : store; sy_coord : coordinator }.
 
 Definition empty_index : index := {| ix_entries := []; ix_nodes := [] |}.
-Definition empty_store (base : N) : store := {| sto_base := base; sto_committed := []; sto_tail := [] |}.
+Definition empty_store (base : N) : store :=
+  {| sto_base := base; sto_committed := []; sto_tail := []; sto_torn := false |}.
 
 Section WithHash.
   Variable H : bytes -> N.
@@ -599,6 +602,8 @@ Section WithHash.
 
   (* ExternalActionCoordinatorV1::recover *)
   Definition recover (s : store) : result coordinator :=
+    (* read_snapshot refuses a torn segment (WalStoreError::SegmentHasUncommittedTail) *)
+    if sto_torn s then Err WalStoreErr else
     match sto_tail s with
     | _ :: _ => Err WalTailNotClean
     | [] =>
@@ -610,7 +615,7 @@ Section WithHash.
 
   (* ordinary WAL recovery in writable mode: drop the uncommitted tail *)
   Definition truncate (s : store) : store :=
-    {| sto_base := sto_base s; sto_committed := sto_committed s; sto_tail := [] |}.
+    {| sto_base := sto_base s; sto_committed := sto_committed s; sto_tail := []; sto_torn := false |}.
 
   (* ---------------------------------------------------------------- live transitions *)
   Definition unready (c : coordinator) : coordinator :=
@@ -622,12 +627,16 @@ Section WithHash.
     let t := {| tx_lsn := co_next_lsn co; tx_body := b; tx_before := before; tx_after := after |} in
     match f with
     | FailAppend => (sto, unready co, Err WalStoreErr)
+    | FailTorn =>
+        ({| sto_base := sto_base sto; sto_committed := sto_committed sto; sto_tail := sto_tail sto; sto_torn := true |},
+         unready co, Err WalStoreErr)
     | FailFlush =>
-        ({| sto_base := sto_base sto; sto_committed := sto_committed sto; sto_tail := sto_tail sto ++ [t] |}, unready co, Err WalStoreErr)
+        ({| sto_base := sto_base sto; sto_committed := sto_committed sto; sto_tail := sto_tail sto ++ [t]; sto_torn := sto_torn sto |},
+         unready co, Err WalStoreErr)
     | FailAfterSync =>
-        ({| sto_base := sto_base sto; sto_committed := sto_committed sto ++ [t]; sto_tail := sto_tail sto |}, unready co, Err WalStoreErr)
+        ({| sto_base := sto_base sto; sto_committed := sto_committed sto ++ [t]; sto_tail := sto_tail sto; sto_torn := sto_torn sto |}, unready co, Err WalStoreErr)
     | NoFault =>
-        ({| sto_base := sto_base sto; sto_committed := sto_committed sto ++ [t]; sto_tail := sto_tail sto |},
+        ({| sto_base := sto_base sto; sto_committed := sto_committed sto ++ [t]; sto_tail := sto_tail sto; sto_torn := sto_torn sto |},
          {| co_index := co_index co; co_next_lsn := co_next_lsn co + 1; co_ready := true |},
          Ok (co_next_lsn co))
     end.
